@@ -118,13 +118,17 @@ Print Assumptions C15_routing_size.
 
 (* PER-POINT ARRAYS.  In every function that validates a per-point argument (weights, alpha) the call of
    _check_optional_array / _check_sized_array is the first event of that argument: nothing subscripts,
-   fancy-indexes (sort order!) or converts it before its length and finiteness are checked; and the
-   eight _setup_* families, adaptive_minmax and the aspls methods do validate theirs. *)
+   fancy-indexes (sort order!) or converts it before its length and finiteness are checked; the eight
+   _setup_* families, adaptive_minmax and the aspls methods do validate theirs; and the keyword arrays
+   that optimize_extended_range forwards (method_kws['weights'/'alpha']) are only ever extended by
+   np.pad(..., 'constant') -- never the source of a (broadcasting) store -- before the inner method
+   validates their length. *)
 Theorem C15_array_validation_first : forall t : list aentry,
   array_routing_ok t = true ->
-  (forall e, In e t -> exists rest, a_events e = AValidate :: rest) /\
-  (forall r, In r required_arrays -> exists e, In e t /\ amatches r e = true /\
-                                     exists rest, a_events e = AValidate :: rest).
+  (forall e, In e t -> a_arg e <> forwarded_arg -> exists rest, a_events e = AValidate :: rest) /\
+  (forall e, In e t -> a_arg e = forwarded_arg ->
+     a_events e <> [] /\ forall a, In a (a_events e) -> a = APad) /\
+  (forall r, In r required_arrays -> exists e, In e t /\ amatches r e = true).
 Proof. exact array_routing_sound. Qed.
 Print Assumptions C15_array_validation_first.
 
